@@ -13,9 +13,9 @@ PROPS["C14"] = {
                 "resolveInstance / instance.resolve / allocate (signature in argument order, arguments sorted by parameter), check (short-circuit And/Or, Fatal flag), doExpr for every kind "
                 "(conditional filtering under Choice, lone conditional -> Empty, Empty dropped from sequences, Choice/Optional simplification)",
     "partial": "C14_instantiate_correct covers the whole model of Instantiate under the boolean side condition inst_checks (evaluated on every generated model: no Fatal branch, instances pairwise "
-               "different, the (nonterminal, suffix) sort yields a permutation, references in range); not proved: that inst_checks holds for every well-formed model. PropagateLookaheads (lookahead flags) has no step-by-step model: it is covered end to end only, by the .tm oracle against the declarative reading of lookahead flags "
+               "different, the (nonterminal, suffix) sort yields a permutation, references in range); the sort conjunct is now a theorem for every model (C14_sort_is_a_permutation), so C14_instantiate_correct_core needs only inst_checks_core (no Fatal branch, instances pairwise different, references in range); not proved: that inst_checks_core holds for every well-formed model. PropagateLookaheads (lookahead flags) has no step-by-step model: it is covered end to end only, by the .tm oracle against the declarative reading of lookahead flags "
                "(passed on unchanged through entry points, reset to false elsewhere, explicit arguments override; Templates.la_explicit); compiler/syntax.go resolveRef/sortArgs only through the .tm oracle; arguments inside set expressions (TokenSet.Args) are outside the model",
-    "level_text": "Universal Coq theorems: C14_instantiate_correct - for every templated model passing the boolean side conditions, every instance (nonterminal, bound arguments) created by the model of "
+    "level_text": "Universal Coq theorems: C14_sort_is_a_permutation - the final sort by (nonterminal, suffix) builds a permutation for every model (the modelled insertion sort permutes 0..n-1, perm is its inverse); C14_instantiate_correct(_core) - for every templated model passing the boolean side conditions (no Fatal branch, instances pairwise different, references in range), every instance (nonterminal, bound arguments) created by the model of "
                   "syntax.Instantiate has in the instantiated table exactly the language its template has under these arguments (both as least solutions; explicit and propagated arguments, conditionals with "
                   "!, &&, ||, ==, !=, all expression kinds; inputs = instances without arguments); the instantiator's predicate evaluation equals the declarative evaluation; per-expression theorem for doExpr; "
                   "Fatal branches unreachable for bound predicates/arguments. "
